@@ -45,6 +45,8 @@ def ladder(m: core.Mod, qual: str) -> list[tuple[str, str, dict[str, str] | str]
     for kind, assign in (("pendulum.Interval", {"Interval": True, "Duration": True}), ("pendulum.Duration", {"Interval": False, "Duration": True}),
                          ("plain", {"Interval": False, "Duration": False})):
         want = {f"isinstance({dp}, {c})": v for c, v in assign.items()}
+        # the negated operand is of the operand's class (timedelta.__neg__; Duration.__neg__ / Interval.__neg__ build self.__class__)
+        want.update({f"isinstance(-1*{dp}, {c})": v for c, v in assign.items()})
         hit = [a for a in arms if sem.conds_compatible(a[0], want)]
         if not hit:
             continue
